@@ -2,7 +2,7 @@
      steps  = round(Fraction(value) / Fraction(str(stepsize)))       (ties to even)
      scaled = int(abs(steps * step) * 10**decimals)
      before, after = divmod(scaled, 10**decimals)
-     "-" if steps < 0 and scaled > 0;  str(before);  "." + after zero-padded to `decimals`
+     "-" if value < 0 and scaled > 0;  str(before);  "." + after zero-padded to `decimals`
    The value is the exact rational vn/vd (what Fraction(value) is for an int, bool or
    finite float), the step is sn/sd.  Definitions only. *)
 From Coq Require Import List NArith ZArith Bool.
@@ -27,7 +27,7 @@ Definition step_fmt (vn : Z) (vd sn sd : positive) (decimals : nat) : text :=
   let k := step_count vn vd sn sd in
   let scaled := Z.to_N ((Z.abs k * Zpos sn * 10 ^ Z.of_nat decimals) / Zpos sd) in
   let p := (10 ^ N.of_nat decimals)%N in
-  dec_print ((k <? 0) && (0 <? scaled)%N) (scaled / p)%N (scaled mod p)%N decimals.
+  dec_print ((vn <? 0) && (0 <? scaled)%N) (scaled / p)%N (scaled mod p)%N decimals.
 
 (* admissible parameters: step * 10^decimals is an integer *)
 Definition step_wf (sn sd : positive) (decimals : nat) : bool :=
